@@ -283,7 +283,8 @@ def load_jobs(tier, seed):
     style = seed % 5
     jobs = [mc_job('mc_complex_small', 'complex', maxanns=2),
             gen_job('load_p6', 'remove', 6, depth=0 if quick else 1, style=0, reads=['loads'], **big),
-            gen_job('load_p10', 'remove', 10, depth=0, style=0, reads=['loads'], **big)]
+            gen_job('load_p10', 'remove', 10, depth=0, style=0, reads=['loads'], **big),
+            gen_job('load_p7', 'offsets', 7, depth=0, style=0, reads=['loads'], MaxAnns=12, MaxRes=3)]
     if not quick:
         jobs += [gen_job('load_p5', 'remove', 5, depth=1, style=style, reads=['loads'], **big),
                  gen_job('load_p12', 'transpose', 12, depth=0, style=(style + 1) % 5, reads=['loads'], MaxAnns=20, MaxRes=3, MaxData=6, MaxSets=2, MaxKeys=4)]
@@ -367,7 +368,13 @@ TABLE_RULE = ('TLC enumerates every reachable store of the scenario (one behavio
 def plan_for(prop, tier, seed, replay_file=None):
     if replay_file:
         return dict(jobs=[dict(kind='replay_file', file=replay_file)], rule='replay of a saved counterexample')
-    if prop in ('C01', 'C02', 'C03', 'C10', 'C14'):
+    if prop == 'C10':
+        big = dict(MaxAnns=10, MaxRes=3, MaxData=10, MaxSets=2, MaxKeys=4)
+        find = [gen_job('find_p10', 'core', 10, depth=1, size='v', style=seed % 5, reads=['finddata'], **big),
+                gen_job('find_p5', 'remove', 5, depth=1, size='v', style=(seed + 1) % 5, reads=['finddata'], **big),
+                gen_job('find_v1', 'core', 1, depth=1 if tier == 'quick' else 2, size='v', style=(seed + 2) % 5, reads=['finddata'], **big)]
+        return dict(jobs=store_jobs(prop, tier, seed) + find, rule=STORE_RULE, assumptions=STORE_ASSUMPTIONS)
+    if prop in ('C01', 'C02', 'C03', 'C14'):
         return dict(jobs=store_jobs(prop, tier, seed), rule=STORE_RULE, assumptions=STORE_ASSUMPTIONS)
     if prop == 'C04':
         return dict(jobs=store_jobs(prop, tier, seed)[:1] + offsets_jobs(tier, seed) + store_jobs(prop, tier, seed)[1:],
